@@ -5,10 +5,11 @@ import (
 	"math/rand"
 )
 
-// G-families: accepted programs for which the code generator itself emits C
-// that is invalid or undefined (each is a known finding on the pinned tree;
-// kept as separate families so that the other families stay clean and a new
-// occurrence elsewhere still alarms).
+// G-families: accepted programs for which the code generator itself once
+// emitted C that was invalid or undefined (each was a genuine defect of the
+// pinned tree, since repaired by a fix: commit). They are aimed at the code
+// generator, not the checker, so they are always run as C (UBSan in C01, trace
+// comparison in C04) and never mixed into other programs.
 
 func init() {
 	allFamilies = append(allFamilies,
@@ -60,6 +61,104 @@ func famGIOArgOnly(g *genctx, v int) *scen {
 	s.methods = []string{fmt.Sprintf("pub func obj.%s?(src: base.io_reader, dst: base.io_writer) {\n    this.%s = args.dst.limited_copy_u32_from_reader!(up_to: 4, r: args.src)\n}", m, f)}
 	s.drive = func(r *rand.Rand) []Call {
 		return feedCalls(r, m, randBytes(r, 6), true, true, 8, nil)[:2]
+	}
+	return s
+}
+
+// S-choose: choosy functions and the no-recursion rule. The call graph the
+// checker walks must include the alternatives a `choose` can install; the
+// near-misses close a cycle only through such an alternative, or directly.
+func init() {
+	allFamilies = append(allFamilies, family{"S-choose", 5, famChoose})
+}
+
+func famChoose(g *genctx, v int) *scen {
+	walk, descend, step, deep, arm, acc := g.n("walk"), g.n("descend"), g.n("step"), g.n("step_deep"), g.n("arm"), g.n("acc")
+	deepBody := fmt.Sprintf("    this.%s ~mod+= 100", acc)
+	stepBody := fmt.Sprintf("    this.%s ~mod+= 2", acc)
+	descendBody := fmt.Sprintf("    this.%s ~mod+= 1\n    this.%s!()", acc, step)
+	switch v {
+	case 1: // the cycle descend -> step (= step_deep once chosen) -> descend exists only through the alternative
+		deepBody = fmt.Sprintf("    this.%s ~mod+= 100\n    if this.%s < 1000 {\n        this.%s!()\n    }", acc, acc, descend)
+	case 2: // direct mutual recursion
+		stepBody = fmt.Sprintf("    this.%s ~mod+= 2\n    if this.%s < 1000 {\n        this.%s!()\n    }", acc, acc, descend)
+	case 3: // self recursion
+		descendBody = fmt.Sprintf("    this.%s ~mod+= 1\n    if this.%s < 1000 {\n        this.%s!()\n    }", acc, acc, descend)
+	case 4: // the alternative calls itself
+		deepBody = fmt.Sprintf("    this.%s ~mod+= 100\n    if this.%s < 1000 {\n        this.%s!()\n    }", acc, acc, deep)
+	}
+	s := &scen{features: []string{"choose", "choosy", "call-graph"}}
+	s.fields = []string{acc + " : base.u32"}
+	s.methods = []string{
+		fmt.Sprintf("pri func obj.%s!(),\n        choosy,\n{\n%s\n}", step, stepBody),
+		fmt.Sprintf("pri func obj.%s!() {\n%s\n}", deep, deepBody),
+		fmt.Sprintf("pri func obj.%s!() {\n%s\n}", descend, descendBody),
+		fmt.Sprintf("pub func obj.%s!() {\n    this.%s!()\n}", walk, descend),
+		fmt.Sprintf("pub func obj.%s!() {\n    choose %s = [%s]\n}", arm, step, deep),
+		fmt.Sprintf("pub func obj.%s() base.u32 {\n    return this.%s\n}", g.n("getacc"), acc),
+	}
+	s.getters = []string{g.n("getacc")}
+	s.drive = func(r *rand.Rand) []Call {
+		return []Call{{Method: walk}, {Method: arm}, {Method: walk}, {Method: walk}}
+	}
+	return s
+}
+
+// R-signed: signed integer arguments with refinements. The checker derives the
+// argument's range from the refinement; the generated C must re-validate it
+// at the public entry point, including the lower bound (a signed argument can
+// be negative, an unsigned one cannot).
+func init() {
+	allFamilies = append(allFamilies, family{"R-signed", 4, famSigned})
+}
+
+func famSigned(g *genctx, v int) *scen {
+	type st struct {
+		name string
+		bits uint
+	}
+	ty := []st{{"base.i8", 8}, {"base.i16", 16}, {"base.i32", 32}, {"base.i64", 64}}[g.r.Intn(4)]
+	cells, poke, peek, last := g.n("cells"), g.n("poke"), g.n("peek"), g.n("last")
+	lo, hi := int64(0), int64(7)
+	idx := "args.i"
+	switch v {
+	case 1: // negative lower bound, shifted into the array
+		lo, hi = -3, 4
+		idx = "args.i + 3"
+	case 2: // upper bound 0
+		lo, hi = -7, 0
+		idx = "args.i + 7"
+	case 3: // refinement wider than the array: must be rejected
+		lo, hi = -1, 7
+	}
+	s := &scen{features: []string{"signed", "refined-arg", "arg-check", ty.name}}
+	s.fields = []string{cells + " : array[8] base.u8", last + " : " + ty.name}
+	s.methods = []string{
+		fmt.Sprintf("pub func obj.%s!(i: %s[%d ..= %d], v: base.u8) {\n    this.%s[%s] = args.v\n    this.%s = args.i\n}", poke, ty.name, lo, hi, cells, idx, last),
+		fmt.Sprintf("pub func obj.%s(i: %s[%d ..= %d]) base.u8 {\n    return this.%s[%s]\n}", peek, ty.name, lo, hi, cells, idx),
+		fmt.Sprintf("pub func obj.%s() %s {\n    return this.%s\n}", g.n("getlast"), ty.name, last),
+	}
+	s.getters = []string{g.n("getlast")}
+	s.drive = func(r *rand.Rand) []Call {
+		tmin := int64(-1) << (ty.bits - 1)
+		tmax := int64(uint64(1)<<(ty.bits-1) - 1)
+		in := []int64{lo, lo + 1, hi, hi - 1, (lo + hi) / 2}
+		bad := []int64{lo - 1, hi + 1, tmin, tmax, -96, 96, lo - 2, -1, 8}
+		var out []Call
+		arg := func(x int64) Arg { return iarg(uint64(x)) }
+		// the pure method refuses without disabling: every bad value can be tried
+		for _, x := range in {
+			out = append(out, Call{Method: poke, Args: []Arg{arg(x), iarg(uint64(1 + r.Intn(250)))}})
+			out = append(out, Call{Method: peek, Args: []Arg{arg(x)}})
+		}
+		for _, x := range bad {
+			out = append(out, Call{Method: peek, Args: []Arg{arg(x)}})
+		}
+		// the impure one disables the object at the first bad value
+		out = append(out, Call{Method: poke, Args: []Arg{arg(bad[r.Intn(len(bad))]), iarg(0xAB)}})
+		out = append(out, Call{Method: poke, Args: []Arg{arg(in[0]), iarg(0xCD)}})
+		out = append(out, Call{Method: peek, Args: []Arg{arg(in[0])}})
+		return out
 	}
 	return s
 }
